@@ -77,6 +77,7 @@ struct BodyInfo {
     ref_pats: Vec<String>,
     closures: usize,
     wilds: Vec<String>,
+    or_guards: Vec<String>,
 }
 
 struct BreakCollector<'a> {
@@ -188,6 +189,14 @@ impl<'a, 'ast> Visit<'ast> for BodyVisitor<'a> {
         syn::visit::visit_expr_if(self, i);
     }
     fn visit_arm(&mut self, a: &'ast syn::Arm) {
+        if let (syn::Pat::Or(po), Some((_, g))) = (&a.pat, &a.guard) {
+            let alts: Vec<String> = po.cases.iter().map(|c| span_json(c.span())).collect();
+            let comma = match &a.comma { Some(c) => br(c.span()).1 as i64, None => -1 };
+            self.info.or_guards.push(format!(
+                "{{\"arm\":{},\"alts\":[{}],\"guard\":{},\"body\":{},\"comma_end\":{}}}",
+                span_json(a.span()), alts.join(","), span_json(g.span()), span_json(a.body.span()), comma
+            ));
+        }
         let scope = match &*a.body {
             syn::Expr::Block(b) if b.attrs.is_empty() && b.label.is_none() => block_scope(&b.block),
             e => format!("\"scope\":{},\"scope_is_block\":false", span_json(e.span())),
@@ -325,7 +334,7 @@ fn fn_json(
     };
     let (s, e) = br(whole);
     format!(
-        "{{\"kind\":\"fn\",\"name\":{},\"start\":{},\"end\":{},\"attrs\":{},\"vis\":{},\"sig\":{},\"ret\":{},\"generics\":{},\"gparams\":{},\"where\":{},\"params\":[{}],\"body_open\":{},\"body_close\":{},\"stmts\":[{}],\"loops\":[{}],\"let_loops\":[{}],\"ref_pats\":[{}],\"wilds\":[{}],\"closures\":{},\"idents\":[{}]}}",
+        "{{\"kind\":\"fn\",\"name\":{},\"start\":{},\"end\":{},\"attrs\":{},\"vis\":{},\"sig\":{},\"ret\":{},\"generics\":{},\"gparams\":{},\"where\":{},\"params\":[{}],\"body_open\":{},\"body_close\":{},\"stmts\":[{}],\"loops\":[{}],\"let_loops\":[{}],\"ref_pats\":[{}],\"wilds\":[{}],\"or_guards\":[{}],\"closures\":{},\"idents\":[{}]}}",
         jstr(&sig.ident.to_string()),
         s,
         e,
@@ -344,6 +353,7 @@ fn fn_json(
         info.let_loops.join(","),
         info.ref_pats.join(","),
         info.wilds.join(","),
+        info.or_guards.join(","),
         info.closures,
         ids.join(",")
     )
